@@ -1,4 +1,4 @@
 import PyodaModel.DriverLoop
-import PyodaModel.ZoneBridge
+import PyodaModel.SourceBridge
 
-def main : IO Unit := Pyoda.runDriverS (∅ : Pyoda.Zone.Registry) Pyoda.Bridge6.step
+def main : IO Unit := Pyoda.runDriverS ({} : Pyoda.Bridge6X.St) Pyoda.Bridge6X.step
